@@ -24,7 +24,7 @@ NAME_ALPHA = text.ALNUM + "._+"
 VR_ALPHA = text.ALNUM + "._+~^"
 CLASSES = ["epoch-absent", "epoch-zero", "epoch-one", "epoch-multi-digit", "epoch-leading-zeros", "epoch-huge",
            "name-single", "name-multi", "name-digit-segment", "name-last-segment-digits", "name-version-like-tail",
-           "prefix-none", "prefix-plain", "prefix-dashed-dotted", "prefix-absolute",
+           "prefix-none", "prefix-plain", "prefix-dashed-dotted", "prefix-absolute", "prefix-with-colon",
            "suffix-rpm", "suffix-none", "release-dotted", "release-dist-tag", "version-tilde-caret",
            "arch-src", "arch-noarch", "vr-edge-dots"]
 CLASS_FLOORS = dict((c, 20) for c in CLASSES)
@@ -95,6 +95,8 @@ def gen_case(rng, force=None):
         p = rng.choice(["Server-optional/x86_64/os-1.2/", "a-1-2.x/b.c-d/", "x-0:1-2.noarch/", "./a-b/../c.d/"])
     elif force == "prefix-absolute":
         p = rng.choice(["/", "/mnt/koji-1/packages/", "//x-1/"])
+    elif force == "prefix-with-colon" or (force is None and rng.random() < 0.05):
+        p = rng.choice(["http://host/dir/", "rsync://host:873/pkgs/", "buildhost:/srv/", "C:/rpms/", "/snap/2019-01-01T10:30:00/", "a:b/"])
     c["prefix"] = p
     s = rng.choice(["", ".rpm"])
     if force == "suffix-rpm":
@@ -138,6 +140,8 @@ def classify(c):
     if len(segs) > 2 and segs[-2][:1].isdigit() and segs[-1][:1].isdigit():
         out.append("name-version-like-tail")
     p = c["prefix"]
+    if ":" in p:
+        out.append("prefix-with-colon")
     if not p:
         out.append("prefix-none")
     elif p.startswith("/"):
@@ -249,7 +253,7 @@ def run_shard(ctx):
             if ctx.out_of_time():
                 ctx.note("stopped_early_at", i)
                 break
-        force = CLASSES[i % len(CLASSES)] if i % 2 == 0 else None
+        force = CLASSES[(i // 2) % len(CLASSES)] if i % 2 == 0 else None
         c = gen_case(rng, force)
         for k in classify(c):
             ctx.count(k)
